@@ -381,6 +381,18 @@ pub fn classics() -> Vec<(String, Prog)> {
             out.push((format!("relseq-rmw-known[{},{}]", ro.s(), lo.s()), Prog { nlocs: 3, pre: vec![], threads: vec![vec![ld(2, Acq), ld(1, lo), ld(0, Rlx)], vec![st(0, 1, Rlx), st(1, 1, Rel)], vec![Op::FetchAdd { loc: 1, add: 1, ord: ro }, st(2, 1, Rel)]] }));
         }
     }
+    // a second RMW that reads an OLDER store than the one another RMW has read already (a side channel shows that it ran later)
+    for &r1 in &RMW_ORDS {
+        for &r2 in &[Rlx, AcqRel, Sc] {
+            out.push((format!("rmw-older-after-rmw[{},{}]", r1.s(), r2.s()), Prog { nlocs: 2, pre: vec![], threads: vec![vec![ld(1, Rlx), Op::FetchAdd { loc: 0, add: 16, ord: r2 }], vec![st(0, 1, Rlx), Op::FetchAdd { loc: 0, add: 256, ord: r1 }, st(1, 1, Rlx)]] }));
+            out.push((format!("rmw-older-after-swap[{},{}]", r1.s(), r2.s()), Prog { nlocs: 2, pre: vec![], threads: vec![vec![], vec![st(0, 1, Rlx), Op::Swap { loc: 0, val: 7, ord: r1 }, st(1, 1, Rlx)], vec![ld(1, Rlx), Op::Swap { loc: 0, val: 9, ord: r2 }]] }));
+        }
+    }
+    // store buffering around a ring of three threads: three SeqCst fences are totally ordered
+    for &f1 in &FENCE_ORDS {
+        out.push((format!("SB3+f[{},sc,sc]", f1.s()), Prog { nlocs: 3, pre: vec![], threads: vec![vec![st(0, 1, Rlx), f(f1), ld(1, Rlx)], vec![st(1, 1, Rlx), f(Sc), ld(2, Rlx)], vec![st(2, 1, Rlx), f(Sc), ld(0, Rlx)]] }));
+    }
+    out.push(("SB3+f[sc,sc,sc]+main-idle".into(), Prog { nlocs: 3, pre: vec![], threads: vec![vec![], vec![st(0, 1, Rlx), f(Sc), ld(1, Rlx)], vec![st(1, 1, Rlx), f(Sc), ld(2, Rlx)], vec![st(2, 1, Rlx), f(Sc), ld(0, Rlx)]] }));
     // release sequence continued by an RMW of another thread, in every RMW ordering, swap and fetch_add
     for &ro in &RMW_ORDS {
         for &lo in &LOAD_ORDS {
